@@ -3,6 +3,7 @@
 pub mod dsym;
 pub mod orbifold;
 pub mod groups;
+pub mod pi1;
 pub mod snf;
 pub mod linalg;
 pub mod graphs;
